@@ -1,7 +1,9 @@
 """C03 — allocation results honour size, alignment, offset, zeroing and semantics."""
 from checks import gcmon_common as C
 
-THEOREMS = ["Mmtk.Heap.checkAlloc_none_iff", "Mmtk.Heap.sizeFor_ge", "Mmtk.Heap.sizeFor_aligned", "Mmtk.Heap.sizeFor_min"]
+THEOREMS = ["Mmtk.Heap.checkAlloc_none_iff", "Mmtk.Heap.sizeFor_ge", "Mmtk.Heap.sizeFor_aligned", "Mmtk.Heap.sizeFor_min",
+            # the allocators' arithmetic (every legal input), Props/C03Algo.lean
+            "Mmtk.AllocArith.alignAllocation_good", "Mmtk.AllocArith.maxAlignedSize_val", "Mmtk.AllocArith.bump_fast_cases", "Mmtk.AllocArith.bump_fast_ok", "Mmtk.AllocArith.bump_fast_never_panics", "Mmtk.AllocArith.bump_fast_refines", "Mmtk.AllocArith.fresh_buffer_fits", "Mmtk.AllocArith.acquireBlockSize_spec", "Mmtk.AllocArith.fresh_block_cases", "Mmtk.AllocArith.fresh_block_fits_iff", "Mmtk.AllocArith.fresh_block_ok", "Mmtk.AllocArith.fresh_block_never_panics", "Mmtk.AllocArith.fresh_block_fits_offset_multiple", "Mmtk.AllocArith.fresh_block_with_slack_fits", "Mmtk.AllocArith.bump_align_leak", "Mmtk.AllocArith.bump_align_leak_witness", "Mmtk.AllocArith.immix_hole_fits", "Mmtk.AllocArith.immix_clean_block_fits", "Mmtk.AllocArith.los_alloc_within_pages", "Mmtk.AllocArith.los_no_slack_overflows", "Mmtk.AllocArith.los_pages_without_slack_too_small", "Mmtk.AllocArith.freelist_alloc_within_cell", "Mmtk.AllocArith.bump_alloc_result_good", "Mmtk.AllocArith.acquire_block_result_good", "Mmtk.AllocArith.immix_hole_result_good", "Mmtk.AllocArith.los_alloc_result_good", "Mmtk.AllocArith.freelist_alloc_result_good", "Mmtk.AllocArith.alloc_result_good"]
 META = {
     "text": "At every `alloc` of every run the monitor evaluates the clauses of C03 on what the real allocator returned: non-null, (a+offset) % align = 0, granted size = requested object size, is_in_mmtk_spaces, bytes zero, SFT space = the plan's allocator mapping for the semantics (asked from the live plan: `allocmap`), and `timeout` = non-termination (watchdog). Proved: `checkAlloc` answers none exactly when the conjunction of the clauses holds (`checkAlloc_none_iff`), and the requested size covers header + fields + payload, is 8-aligned and >= 32 (`sizeFor_*`). Inputs: structured sweep of every legal semantics x boundary sizes (TLAB 32 KB, Immix line/block, mark-sweep classes and the 64 KB limit, the plan's LOS threshold +-8/64, pages, up to 256 KB) x aligns 8..64 x offsets 0..72, on all 11 plans, plus the allocations of all other programs.",
     "note": "Level: proof of the verdict function, partial w.r.t. the code. NEW defect gc:bump-align-leak (BumpAllocator::acquire_block ignores the alignment slack; the request never fits its fresh block, leaks a block per retry and ends in out_of_memory / `GC triggered in nogc`) is reported by a dedicated corpus program and kept out of the random stream. copyspace0/copyspace1 are identified (the mapping flips at every GC).",
@@ -11,7 +13,7 @@ META = {
 
 
 def main(argv=None):
-    return C.run_check("C03", argv, ["MmtkModel.Props.C03"], THEOREMS, "common",
+    return C.run_check("C03", argv, ["MmtkModel.Props.C03", "MmtkModel.Props.C03Algo"], THEOREMS, "common",
                        rule="one evaluation = one successful `alloc`; distinct non-trivial = distinct (plan, semantics, size, align, offset)",
                        assumptions=["termination is observed through the 60 s watchdog (a non-returning call prints `timeout`)",
                                     "semantics the plan maps to no allocator (Code/ReadOnly/LargeCode without the code_space / ro_space features) are not legal inputs"])
